@@ -83,7 +83,117 @@ func guardEdge(pred, b *ssa.BasicBlock) bool {
 	if loadOfField(cond, "formatEntry", "redactable") && truth {
 		return true
 	}
+	if pp, ok := cond.(*ssa.Parameter); ok && escFlagParams[pp] && truth {
+		return true // a helper's parameter that every caller binds to entry.redactable
+	}
 	return false
+}
+
+// escTextParams: parameters of errbase functions that receive layer text (formatEntry.head/.details) at some
+// call site; escFlagParams: boolean parameters that every such call site binds to the entry's redactable bit.
+// Recomputed by runEsc for the program at hand.
+var escTextParams = map[*ssa.Parameter]string{}
+var escFlagParams = map[*ssa.Parameter]bool{}
+var escCallSites = map[*ssa.Function][]*ssa.Call{}
+
+func baseOfBytes(v ssa.Value) ssa.Value {
+	for i := 0; i < 6; i++ {
+		switch x := v.(type) {
+		case *ssa.Convert:
+			v = x.X
+		case *ssa.ChangeType:
+			v = x.X
+		case *ssa.Slice:
+			v = x.X
+		case *ssa.MakeInterface:
+			v = x.X
+		default:
+			return v
+		}
+	}
+	return v
+}
+
+func computeEscParams(p *load.Program) {
+	escTextParams = map[*ssa.Parameter]string{}
+	escFlagParams = map[*ssa.Parameter]bool{}
+	escCallSites = map[*ssa.Function][]*ssa.Call{}
+	notFlag := map[*ssa.Parameter]bool{}
+	var fns []*ssa.Function
+	for _, fn := range p.HandFuncs() {
+		if pk := load.FnPkg(fn); pk != nil && pk.Path() == errbasePath {
+			fns = append(fns, fn)
+		}
+	}
+	for changed, round := true, 0; changed && round < 4; round++ {
+		changed = false
+		for _, fn := range fns {
+			sx.EachInstr(fn, func(in ssa.Instruction) {
+				call, ok := in.(*ssa.Call)
+				if !ok {
+					return
+				}
+				callee := sx.Callee(call)
+				if callee == nil || callee.Blocks == nil || load.FnPkg(callee) == nil || load.FnPkg(callee).Path() != errbasePath {
+					return
+				}
+				passes := false
+				for i, a := range call.Call.Args {
+					if i >= len(callee.Params) {
+						break
+					}
+					which, isText := derivesFromEntryText(stripIface(a))
+					if !isText {
+						if pp, isP := baseOfBytes(a).(*ssa.Parameter); isP && escTextParams[pp] != "" {
+							which, isText = escTextParams[pp], true
+						}
+					}
+					if isText {
+						passes = true
+						if escTextParams[callee.Params[i]] == "" {
+							escTextParams[callee.Params[i]] = which
+							changed = true
+						}
+					}
+				}
+				if !passes {
+					return
+				}
+				found := false
+				for _, cs := range escCallSites[callee] {
+					if cs == call {
+						found = true
+					}
+				}
+				if !found {
+					escCallSites[callee] = append(escCallSites[callee], call)
+				}
+				for i, a := range call.Call.Args {
+					if i >= len(callee.Params) || !isBoolType(callee.Params[i].Type()) {
+						continue
+					}
+					isFlag := loadOfField(a, "formatEntry", "redactable")
+					if pp, isP := a.(*ssa.Parameter); isP && escFlagParams[pp] {
+						isFlag = true
+					}
+					if isFlag && !notFlag[callee.Params[i]] {
+						if !escFlagParams[callee.Params[i]] {
+							escFlagParams[callee.Params[i]] = true
+							changed = true
+						}
+					} else {
+						notFlag[callee.Params[i]] = true
+						delete(escFlagParams, callee.Params[i])
+					}
+				}
+			})
+		}
+	}
+}
+
+func isBoolType(t types.Type) bool {
+	b, ok := types.Unalias(t).Underlying().(*types.Basic)
+	return ok && b.Kind() == types.Bool
 }
 
 // allPathsGuarded: every way into block b goes through a guard edge
@@ -120,10 +230,12 @@ func runEsc(c *core.Ctx) {
 		return
 	}
 	n := 0
+	computeEscParams(p)
 	for _, fn := range p.HandFuncs() {
 		if pk := load.FnPkg(fn); pk == nil || pk.Path() != errbasePath {
 			continue
 		}
+		fn := fn
 		sx.EachInstr(fn, func(in ssa.Instruction) {
 			call, ok := in.(*ssa.Call)
 			if !ok {
@@ -144,17 +256,38 @@ func runEsc(c *core.Ctx) {
 				}
 				for _, v := range vals {
 					which, ok := derivesFromEntryText(stripIface(v))
+					viaParam := false
+					if !ok {
+						if pp, isP := baseOfBytes(v).(*ssa.Parameter); isP && escTextParams[pp] != "" {
+							which, ok, viaParam = escTextParams[pp]+" (as parameter "+pp.Name()+")", true, true
+						}
+					}
 					if !ok {
 						// escaped text?
 						if esc, isEsc := escapedEntryText(stripIface(v)); isEsc {
 							n++
 							c.Ob(fmt.Sprintf("%s: finalBuf <- EscapeBytes(entry.%s)", load.FnName(fn), esc), call.Pos(), true, "escaped and enclosed before reaching the buffer")
+						} else if f, w, isT := escapedTransformedText(stripIface(v)); isT {
+							n++
+							c.Fail(fmt.Sprintf("%s: finalBuf <- EscapeBytes(%s(entry.%s))", load.FnName(fn), f, w), call.Pos(),
+								"layer text is transformed by "+f+" before it is escaped, on the redactable path only: the redactable rendering with its markers stripped is no longer the plain rendering")
 						}
 						continue
 					}
 					n++
 					construct := fmt.Sprintf("%s: finalBuf <- entry.%s (raw)", load.FnName(fn), which)
-					c.Check(allPathsGuarded(call.Block(), 0), construct, call.Pos(), "raw write reachable only through !redactableOutput or entry.redactable edges",
+					guarded := allPathsGuarded(call.Block(), 0)
+					if !guarded && viaParam {
+						// a helper that is itself only called on guarded edges
+						sites := escCallSites[fn]
+						guarded = len(sites) > 0
+						for _, cs := range sites {
+							if !allPathsGuarded(cs.Block(), 0) {
+								guarded = false
+							}
+						}
+					}
+					c.Check(guarded, construct, call.Pos(), "raw write reachable only through !redactableOutput or entry.redactable edges",
 						"layer text is written raw into the final buffer on a path where the output is redactable and the entry is not: unsafe text appears outside redaction markers")
 				}
 			}
@@ -205,12 +338,53 @@ func escapedEntryText(v ssa.Value) (string, bool) {
 			continue
 		case *ssa.Call:
 			if f := sx.Callee(x); f != nil && f.Name() == "EscapeBytes" && len(x.Call.Args) == 1 {
-				return derivesFromEntryText(x.Call.Args[0])
+				if w, ok := derivesFromEntryText(x.Call.Args[0]); ok {
+					return w, true
+				}
+				if pp, isP := baseOfBytes(x.Call.Args[0]).(*ssa.Parameter); isP && escTextParams[pp] != "" {
+					return escTextParams[pp] + " (as parameter " + pp.Name() + ")", true
+				}
+				return "", false
 			}
 		}
 		break
 	}
 	return "", false
+}
+
+// escapedTransformedText: v is EscapeBytes(f(entry text, ...)) for some function f: the text is altered between
+// collection and escaping.
+func escapedTransformedText(v ssa.Value) (fn string, which string, ok bool) {
+	for i := 0; i < 4; i++ {
+		switch x := v.(type) {
+		case *ssa.Convert:
+			v = x.X
+			continue
+		case *ssa.ChangeType:
+			v = x.X
+			continue
+		case *ssa.Call:
+			f := sx.Callee(x)
+			if f == nil || f.Name() != "EscapeBytes" || len(x.Call.Args) != 1 {
+				return "", "", false
+			}
+			inner, isCall := baseOfBytes(x.Call.Args[0]).(*ssa.Call)
+			if !isCall {
+				return "", "", false
+			}
+			for _, a := range inner.Call.Args {
+				if w, isText := derivesFromEntryText(stripIface(a)); isText {
+					return sx.TrimMod(sx.CalleeName(inner)), w, true
+				}
+				if pp, isP := baseOfBytes(a).(*ssa.Parameter); isP && escTextParams[pp] != "" {
+					return sx.TrimMod(sx.CalleeName(inner)), escTextParams[pp], true
+				}
+			}
+			return "", "", false
+		}
+		break
+	}
+	return "", "", false
 }
 
 // ---------------------------------------------------------------------------
